@@ -1,9 +1,34 @@
 import SoundeventModel.Ops.Common
+import SoundeventModel.Relational
 namespace SE.Ops.C04
-open Lean SE
+open Lean SE SE.Relational
 
-def handle (op : String) (_a : Json) : Except String Json := do
+def fldOptStr (j : Json) (k : String) : Except String (Option String) :=
+  match fldOpt j k with
+  | none => .ok none
+  | some v => do return some (← v.getStr?)
+
+def fldStrs (j : Json) (k : String) : Except String (List String) := do
+  (← fldArr j k).mapM (·.getStr?)
+
+def getMatch (j : Json) : Except String MatchRow := do
+  return { source := ← fldOptStr j "source", target := ← fldOptStr j "target",
+           affinity := ← fldRat j "affinity", score := ← fldOptRat j "score" }
+
+def handle (op : String) (a : Json) : Except String Json := do
   match op with
+  | "clip_eval" =>
+    let arr : ClipEvalArr := {
+      annClip := ← fldStr a "ann_clip", predClip := ← fldStr a "pred_clip",
+      annIds := ← fldStrs a "ann_ids", predIds := ← fldStrs a "pred_ids",
+      ms := ← (← fldArr a "matches").mapM getMatch, score := ← fldOptRat a "score" }
+    return boolJ arr.accepted
+  | "match" => return boolJ (matchOk (← getMatch a))
+  | "project" => return boolJ (projectOk (← fldStrs a "task_clips") (← fldStrs a "ann_clips"))
+  | "clip" => return boolJ (clipOk (← fldRat a "start") (← fldRat a "end"))
+  | "unit" => return boolJ (optUnitOk (← fldOptRat a "x"))
+  -- inputs with no rational reading (missing / null / non-numeric): never a valid object
+  | "malformed" => return boolJ false
   | _ => .error s!"C04: unknown op {op}"
 
 end SE.Ops.C04
